@@ -576,6 +576,10 @@ var curated = []string{
 	`(or (and (or b0 b1) b2) b0)`,
 	`(eq i0 "a")`,
 	`(and (eq i0 i1) (ne i1 i2))`,
+	`(if i0 b0 b1)`,
+	`(if (fi i0) i1 i2)`,
+	`(and (if i0 b0 b1) b2)`,
+	`(or b0 (if (fi 1) b1 b2))`,
 }
 
 // Enumerate produces the deterministic family of sources for cfg and seed.
